@@ -8,6 +8,7 @@ import (
 	"fmt"
 	"io"
 	"io/fs"
+	"log"
 	"log/slog"
 	"os"
 	"sync"
@@ -47,6 +48,8 @@ type faultCase struct {
 	// the Config object was used before, by a handler, with this tolerance (-1 = not),
 	// and its fields were then set to the values above
 	UsedBeforeWithTolMs int `json:"config_used_before_with_tolerance_ms,omitempty"`
+	// the configuration has a system log (the handler writes a line per event to it)
+	WithLog bool `json:"system_log,omitempty"`
 	// unrelated settings of the same configuration: they must not matter
 	ReadTimeoutMs uint   `json:"read_timeout_ms,omitempty"`
 	SleepOpenMs   uint   `json:"sleep_after_failed_open_ms,omitempty"`
@@ -181,6 +184,58 @@ func (s *scriptReader) Read(p []byte) (int, error) {
 	return n, nil
 }
 
+// heartbeat measures how late this process's own goroutines are woken: a goroutine
+// sleeps 2 ms over and over and records by how much each sleep overshot.  A handler
+// that gives up although the script kept every interruption within the tolerance is
+// excused only if the machine itself was late during that run.
+var heartbeat struct {
+	sync.Mutex
+	started bool
+	late    []lateness
+}
+
+type lateness struct {
+	at time.Time
+	by time.Duration
+}
+
+func startHeartbeat() {
+	heartbeat.Lock()
+	defer heartbeat.Unlock()
+	if heartbeat.started {
+		return
+	}
+	heartbeat.started = true
+	go func() {
+		for {
+			t0 := time.Now()
+			time.Sleep(2 * time.Millisecond)
+			by := time.Since(t0) - 2*time.Millisecond
+			if by > 20*time.Millisecond {
+				heartbeat.Lock()
+				heartbeat.late = append(heartbeat.late, lateness{time.Now(), by})
+				if len(heartbeat.late) > 4096 {
+					heartbeat.late = heartbeat.late[2048:]
+				}
+				heartbeat.Unlock()
+			}
+		}
+	}()
+}
+
+// worstLatenessSince is the largest overshoot recorded since t.
+func worstLatenessSince(t time.Time) time.Duration {
+	heartbeat.Lock()
+	defer heartbeat.Unlock()
+	var w time.Duration
+	for _, l := range heartbeat.late {
+		if l.at.After(t) && l.by > w {
+			w = l.by
+		}
+	}
+	return w
+}
+
 type faultObs struct {
 	msgs      []handler.Message
 	err       error
@@ -192,10 +247,15 @@ type faultObs struct {
 }
 
 func runFaultScript(k faultCase) faultObs {
+	startHeartbeat()
+	began := time.Now()
 	steps := append([]step(nil), k.Steps...)
 	sr := &scriptReader{steps: steps, afterKind: k.AfterEnd, tolerance: time.Duration(k.TimeoutMs) * time.Millisecond}
 	cfg := &jsonconfig.Config{WaitTimeOnEOFMilliseconds: k.WaitMs, TimeoutOnEOFMilliSeconds: k.TimeoutMs,
 		ReadTimeoutMilliSeconds: k.ReadTimeoutMs, SleepTimeAfterFailedOpenMilliSeconds: k.SleepOpenMs}
+	if k.WithLog {
+		cfg.SystemLog = log.New(io.Discard, "", log.LstdFlags)
+	}
 	if k.UsedBeforeWithTolMs != 0 {
 		// the same Config object served an earlier session with another tolerance
 		before := uint(0)
@@ -236,16 +296,17 @@ func runFaultScript(k faultCase) faultObs {
 	obs.supplied = sr.supplied
 	obs.neverStop = sr.neverStop
 	obs.afterEnd = sr.afterEnd
-	// stall guard: a series of faults returned by consecutive reads inside the script
-	// (so the script meant it to be within the tolerance) in fact lasted nearly as long
-	// as the tolerance or longer: the handler was entitled to give up.  The margin
-	// covers the handler reading its clock some time after the reader stamped the fault.
+	// stall guard: the handler is excused for giving up early only if this process's
+	// own heartbeat shows that the machine was late during the run (by a quarter of the
+	// tolerance, at most 100 ms).  How long the handler itself chose to wait between
+	// its reads is its own business: a source that has data again whenever it is asked
+	// has resumed within any tolerance.
 	if k.TimeoutMs > 0 {
-		margin := time.Duration(k.TimeoutMs) * time.Millisecond / 2
-		if margin > 200*time.Millisecond {
-			margin = 200 * time.Millisecond
+		limit := time.Duration(k.TimeoutMs) * time.Millisecond / 4
+		if limit > 100*time.Millisecond {
+			limit = 100 * time.Millisecond
 		}
-		if sr.maxGap > time.Duration(k.TimeoutMs)*time.Millisecond-margin {
+		if worstLatenessSince(began) > limit {
 			obs.stalled = true
 		}
 	}
@@ -397,6 +458,7 @@ func monC13(c *child.Ctx, replay json.RawMessage) {
 			k.Steps = append(append([]step(nil), k.Steps...), step{Fault: "other"})
 		}
 		// the other settings of the configuration (shipped configs set them) must not change the behaviour
+		k.WithLog = len(cases)%3 == 1
 		switch len(cases) % 4 {
 		case 1:
 			k.ReadTimeoutMs = 500
